@@ -303,6 +303,7 @@ type Link struct {
 	wIdx, rIdx  int
 	DialedAt    int64
 	FailedAt    int64
+	FailedVT    time.Time // wall/virtual time of the failure (zero while healthy)
 	ClosedAt    int64
 	rx, tx      atomic.Uint64
 }
@@ -335,9 +336,17 @@ func (l *Link) Fail(m Mode) {
 		l.mu.Lock()
 		l.mode = m
 		l.FailedAt = l.net.Clock.Tick()
+		l.FailedVT = time.Now()
 		l.mu.Unlock()
 		close(l.failed)
 	})
+}
+
+// FailedTime returns the time of the failure (zero while healthy).
+func (l *Link) FailedTime() time.Time {
+	l.mu.Lock()
+	defer l.mu.Unlock()
+	return l.FailedVT
 }
 
 // Log returns a copy of the transport-boundary log.
